@@ -131,7 +131,7 @@ def run(ctx):
             tty_generic = call_matches(t, r"^std::io::Write::") and any(re.search(r"(^|[ &])unix::Tty$", x) for x in g[:1])
             if call_matches(t, r"^rustix::io::(write|pwrite|writev)") or call_matches(t, r"^<std::fs::File as std::io::Write>::write") or call_matches(t, r"^<unix::Tty as std::io::Write>::") or tty_generic:
                 nm = callee_name(t)
-                if tty_generic:
+                if tty_generic and nm != "<unix::Tty as std::io::Write>::write":
                     nm = "<unix::Tty as std::io::Write>::write (via %s)" % nm
                 raw_writers.setdefault(b.path, []).append((nm, "%s:%d" % (b.file, t["line"])))
     allowed_raw = {
@@ -145,6 +145,9 @@ def run(ctx):
             if callee.startswith("<unix::Tty as std::io::Write>::write") :
                 tty_write_callers.append(path)
                 b = prog.body(path)
+                if "(via " in callee:
+                    ctx.violation("WHO-WRITES-TTY", path, "Tty::write-loop",
+                                  "the tty is written through %s: only the single-attempt Tty::write keeps the consumed amount equal to the bytes the kernel accepted" % callee, sites=[site])
                 if not (b and b.kind == "Closure" and b.closure_root == poll.path):
                     ctx.violation("WHO-WRITES-TTY", path, "Tty::write",
                                   "Tty::write is called outside the consume_with closure of UnixTerminal::poll: bytes can bypass or race the write queue", sites=[site])
@@ -204,7 +207,10 @@ def run(ctx):
             if call_matches(t, r"^unix::guard_io$"):
                 og = origins(b, t["args"][0])
                 ctx.instance("RETURNS-FROM", {"fn": path, "guard_io_arg_origins": sorted(str(o) for o in og), "otherwise": op_const_int(t["args"][1])})
-                if not any(o[0] == "call" and "unix::Tty as std::io::Write>::write" in o[2] for o in og):
+                if not (og and all(o[0] == "call" and o[2] == "<unix::Tty as std::io::Write>::write" for o in og)):
+                    ctx.violation("RETURNS-FROM", path, "guard_io-source",
+                                  "the byte count handed to guard_io is not the result of one Tty::write attempt (origins %s): a looping or mapped write hides partial progress when the tty returns EAGAIN, so delivered bytes are retransmitted" % sorted(map(str, og)),
+                                  sites=["%s:%d" % (b.file, t["line"])])
                     continue
                 if op_const_int(t["args"][1]) != 0:
                     ctx.violation("RETURNS-FROM", path, "guard_io-otherwise",
